@@ -87,7 +87,7 @@ pub fn timeline(model: &ZoneModel, years: std::ops::RangeInclusive<i64>) -> Opti
     let mut tie = false;
     if let MTrailer::Alt(r) = &z.trailer {
         let class = model.class.unwrap();
-        if !class.interleaves() {
+        if class == Class::Unstable || (class == Class::Overlap && overlap_listed_as_known()) {
             return None;
         }
         let mut cands: Vec<i64> = vec![];
@@ -229,6 +229,12 @@ pub fn check_one(model: &ZoneModel, tl: &Timeline, zr: TimeZoneRef<'_>, f: &Fiel
     st.eval(1);
     let z = model.z;
     let l = f.civil_secs();
+    if l > cal::max_unix() as i128 {
+        // 23:59:60 of the last representable day denotes a civil second beyond the calendar: "converting back" is not definable
+        st.exclude("23:59:60 on the last day of the calendar");
+        let _ = DateTime::find(f.y, f.mo, f.d, f.h, f.mi, f.s, f.ns, zr);
+        return Ok(());
+    }
     let got = DateTime::find(f.y, f.mo, f.d, f.h, f.mi, f.s, f.ns, zr);
     // "far": the property's round trip is not definable (a candidate or a gap half may leave the supported range, or a DST rule cannot be
     // evaluated for the searched year): only the error kind is asserted there. Everywhere else the search must succeed and equal the model.
@@ -544,7 +550,7 @@ pub fn check_search(c: &SearchCase, focus: Focus, st: &mut Stats) -> Result<(), 
     let mut model_free = false;
     if let Some(cl) = model.class {
         st.class(&format!("rule_{}", cl.name()));
-        if cl == Class::Overlap {
+        if cl == Class::Overlap && overlap_listed_as_known() {
             if focus == Focus::C17 || focus == Focus::C14 {
                 // the buffer-based search must mirror the allocating one (C17), and every produced value must be coherent (C14),
                 // whatever the zone: these two need no model, so the overlapping-rule zones are not excluded for them
@@ -670,6 +676,16 @@ pub fn check_search(c: &SearchCase, focus: Focus, st: &mut Stats) -> Result<(), 
         }
     }
     Ok(())
+}
+
+/// Is the overlapping-rule finding listed as known (then such zones are excluded from the model-based search checks and counted)?
+pub fn overlap_listed_as_known() -> bool {
+    use std::sync::OnceLock;
+    static V: OnceLock<bool> = OnceLock::new();
+    *V.get_or_init(|| {
+        let k = crate::known::load();
+        k.has_signature("C05", KF_OVERLAP) || k.has_signature("C06", KF_OVERLAP)
+    })
 }
 
 /// Is the zero-length-period finding listed as known (then tie years are excluded by construction and counted)?
